@@ -60,12 +60,31 @@ def run(ctx):
         d = rng.randbytes(13) + tail
         cases.append(("generate_cbc_mac", (rng.randbytes(16), d, 2, None, False)))
         cases.append(("generate_retail_mac", (rng.randbytes(16), rng.randbytes(16), d, 2, None)))
+    from harness import gens
+    # structured keys (repeated components) and neighbours under the same key
+    for ks in (16, 24):
+        for _ in range(12):
+            cases.append(("generate_retail_mac", (gens.key(rng, ks), gens.key(rng, ks), rng.randbytes(rng.randrange(0, 9)), rng.choice((1, 2)), None)))
+            cases.append(("generate_cbc_mac", (gens.key(rng, ks), rng.randbytes(rng.randrange(0, 20)), rng.choice((1, 2, 3)), None, False)))
+    for padding in (-3, -2, -1, 0, 4, 5):
+        cases.append(("generate_cbc_mac", (rng.randbytes(16), b"abc", padding, None, True)))
+        cases.append(("generate_retail_mac", (rng.randbytes(16), rng.randbytes(16), b"abc", padding, None)))
+    cases = fw.with_history(rng, cases, gens.variants_generic(rng), fraction=0.05, limit=40)
+    model_cases = [c for c in cases if not (c[0] == "generate_cbc_mac" and c[1][2] < 0) and not (c[0] == "generate_retail_mac" and c[1][3] < 0)]
+    neg = [c for c in cases if c not in model_cases]
     res = fw.call_result(
-        cases, check_impl=check_impl, nontrivial=lambda fn, a, o_: o_[0] == "OK",
+        model_cases, check_impl=check_impl, nontrivial=lambda fn, a, o_: o_[0] == "OK",
         rule="all DES/AES key sizes x message lengths 0..2 blocks+ (0..5 blocks in thorough), every residue x padding "
              "1,2,3 x output lengths; independent key1/key2 sizes for the retail MAC; unknown paddings and bad key sizes; "
              "oracle = single-block OpenSSL ECB with hand chaining (ISO 9797-1 algorithms 1 and 3); "
              "non-trivial = distinct successful calls")
+    for fn, args in neg:       # negative padding numbers: outside the model's typed domain, implementation only
+        out = core.impl_call(fn, args)
+        v = check_impl(fn, args, out)
+        res["evaluations"] += 1
+        if v:
+            v["input"] = {"fn": fn, "args": [core.show(a) for a in args]}
+            res["violations"].append(v)
     # oracle-free identity: single-block retail MAC = E_k1(D_k2(E_k1(block)))
     for _ in range(20):
         k1, k2, blk = rng.randbytes(8), rng.randbytes(8), rng.randbytes(8)
